@@ -63,7 +63,7 @@ PROPS["C12"] = dict(
 )
 
 PROPS["C04"] = dict(
-    pkgs=[KS], level="exploration", death_is_violation=True, env={"VERIF_LOGLEVEL": "trace"},
+    pkgs=[KS, "api"], level="exploration", death_is_violation=True, env={"VERIF_LOGLEVEL": "trace"},
     quick=dict(checks=240, shards=16, timeout=500),
     thorough=dict(checks=6000, shards=16, timeout=2400),
     technique="property-based testing: rapid-generated wallet histories; byte search of store files, logical store dump, exports and trace-level logs for secrets collected in-package, with positive control and decrypt-chain oracle",
